@@ -137,7 +137,53 @@ def run_pair(I, expr, doc):
     return out
 
 
+_G = {}
+
+
+def _eval_program(prog):
+    """One program against every input (runs in a forked worker: the program model is inherited, the
+    interpreter is the worker's own)."""
+    P, inputs, name = _G["P"], _G["inputs"], _G["name"]
+    I = _G.get("I")
+    if I is None:
+        I = _G["I"] = Interp(P, max_steps=500000, max_depth=500)
+        I.features = {"avx2": True, "bmi2": True, "sse4.1": True, "sse4.2": True, "ssse3": True, "sse2": True}
+    r = {"bad": [], "ok": 0, "skip": 0, "parse_fail": 0, "skipped": {}, "examples": {}}
+    pb = prog.encode("utf-8")
+    try:
+        pr = I.call("jq::parser::parse", [Slice(list(pb), 0, len(pb))])
+    except (Unsupported, Panic, KeyError, IndexError, AttributeError, TypeError, RecursionError) as e:
+        r["skip"] += len(inputs)
+        r["skipped"][str(e)[:80]] = 1
+        return r
+    if not (isinstance(pr, Adt) and pr.vname == "Ok"):
+        r["parse_fail"] += 1
+        return r
+    expr = pr.fields[0]
+    for doc in inputs:
+        I.statics.clear()
+        try:
+            (lv, le), (gv, ge) = run_pair(I, expr, doc)
+        except Panic as e:
+            r["bad"].append(("%s:panic:%s@%s" % (name, prog, doc), "evaluating `%s` on %s panics: %s" % (prog, doc[:60], e)))
+            continue
+        except (Unsupported, KeyError, IndexError, AttributeError, TypeError, RecursionError, ValueError, OverflowError) as e:
+            r["skip"] += 1
+            k_ = str(e)[:90]
+            if k_ not in r["skipped"]:
+                r["examples"][k_] = (prog, doc[:40])
+            r["skipped"][k_] = r["skipped"].get(k_, 0) + 1
+            continue
+        r["ok"] += 1
+        if lv != gv or le != ge:
+            r["bad"].append(("%s:%s@%s" % (name, prog, doc), "`%s` on %s: library gives %s ending %r, the CLI evaluator gives %s ending %r" % (prog, doc[:80], repr(lv)[:200], le, repr(gv)[:200], ge)))
+    return r
+
+
 def rule_evaluators(progs, tier, name="JQEVAL", floor_share=None):
+    import multiprocessing as _mp
+    import os as _os
+
     if floor_share is None:
         # measured: 91 % of the quick family is evaluated; a model that stops covering a builtin family shows as a drop
         floor_share = 0.85 if tier != "thorough" else 0.75
@@ -145,49 +191,38 @@ def rule_evaluators(progs, tier, name="JQEVAL", floor_share=None):
     for cfg, P in progs.items():
         res = RuleResult(name, cfg)
         out.append(res)
-        I = Interp(P, max_steps=500000, max_depth=500)
-        I.features = {"avx2": True, "bmi2": True, "sse4.1": True, "sse4.2": True, "ssse3": True, "sse2": True}
         progs_ = PROGRAMS if tier == "thorough" else PROGRAMS[:22] + PROGRAMS[22::3] + ["..", "map(.+1)", "reverse", "unique", "flatten"]
         inputs = INPUTS if tier == "thorough" else ["null", "[]", '[{"b":1,"a":2},{"z":0,"m":1,"c":2}]', "[3,1,2]", '{"a":1,"b":2}', '{"a":1,"a":2}', '"abc"', '[1,"a",null,true,{"a":1},[2]]', '{"a":{"b":[1,2]}}', "1.5"]
+        _G.clear()
+        _G.update({"P": P, "inputs": inputs, "name": name})
+        jobs = int(_os.environ.get("VERIF_JOBS", "0")) or max(1, min(8, (_os.cpu_count() or 2) - 2))
+        if jobs > 1:
+            # programs are independent: fork workers after the program model is loaded (results keep program order);
+            # the collector is frozen so that the workers' collections do not touch (and copy) the inherited pages
+            import gc as _gc
+
+            _gc.collect()
+            _gc.freeze()
+            try:
+                with _mp.get_context("fork").Pool(jobs) as pool:
+                    results = pool.map(_eval_program, progs_, chunksize=1)
+            finally:
+                _gc.unfreeze()
+        else:
+            results = [_eval_program(p_) for p_ in progs_]
         n_ok = n_skip = n_parse_fail = 0
         skipped = {}
         examples = {}
-        for prog in progs_:
-            pb = prog.encode("utf-8")
-            try:
-                pr = I.call("jq::parser::parse", [Slice(list(pb), 0, len(pb))])
-            except (Unsupported, Panic, KeyError, IndexError, AttributeError, TypeError, RecursionError) as e:
-                n_skip += len(inputs)
-                skipped.setdefault(str(e)[:80], 0)
-                skipped[str(e)[:80]] += 1
-                continue
-            if not (isinstance(pr, Adt) and pr.vname == "Ok"):
-                n_parse_fail += 1
-                continue
-            expr = pr.fields[0]
-            import os as _os, time as _time
-
-            t_prog = _time.time()
-            for doc in inputs:
-                I.statics.clear()
-                try:
-                    (lv, le), (gv, ge) = run_pair(I, expr, doc)
-                except Panic as e:
-                    res.bad("%s:panic:%s@%s" % (name, prog, doc), "evaluating `%s` on %s panics: %s" % (prog, doc[:60], e))
-                    continue
-                except (Unsupported, KeyError, IndexError, AttributeError, TypeError, RecursionError, ValueError, OverflowError) as e:
-                    n_skip += 1
-                    k_ = str(e)[:90]
-                    if k_ not in skipped:
-                        examples[k_] = (prog, doc[:40])
-                    skipped[k_] = skipped.get(k_, 0) + 1
-                    continue
-                n_ok += 1
-                if _os.environ.get("VERIF_JQEVAL_TRACE") and _time.time() - t_prog > 20:
-                    print("SLOW", prog, doc[:30], round(_time.time() - t_prog, 1), flush=True)
-                    t_prog = _time.time()
-                if lv != gv or le != ge:
-                    res.bad("%s:%s@%s" % (name, prog, doc), "`%s` on %s: library gives %s ending %r, the CLI evaluator gives %s ending %r" % (prog, doc[:80], repr(lv)[:200], le, repr(gv)[:200], ge))
+        for r in results:
+            n_ok += r["ok"]
+            n_skip += r["skip"]
+            n_parse_fail += r["parse_fail"]
+            for k_, c_ in r["skipped"].items():
+                skipped[k_] = skipped.get(k_, 0) + c_
+            for k_, ex_ in r["examples"].items():
+                examples.setdefault(k_, ex_)
+            for key, msg in r["bad"]:
+                res.bad(key, msg)
         res.cells += n_ok
         res.engines += 2
         total = n_ok + n_skip
@@ -195,5 +230,5 @@ def rule_evaluators(progs, tier, name="JQEVAL", floor_share=None):
             res.note("skipped %d pairs: %s (e.g. `%s` on %s)" % ((c_, k_) + examples.get(k_, ("?", "?"))))
         if total == 0 or n_ok / total < floor_share:
             res.bad("%s:coverage" % name, "only %d of %d (program, input) pairs could be evaluated (floor %.0f%%): the std/crate model no longer covers the evaluators (fail closed)" % (n_ok, total, floor_share * 100))
-        res.ok({"programs": len(progs_), "inputs": len(inputs), "pairs_compared": n_ok, "pairs_skipped_unmodelled": n_skip, "programs_not_parsed": n_parse_fail})
+        res.ok({"programs": len(progs_), "inputs": len(inputs), "pairs_compared": n_ok, "pairs_skipped_unmodelled": n_skip, "programs_not_parsed": n_parse_fail, "workers": jobs})
     return out
